@@ -128,6 +128,19 @@ control("C07", "a setter stops raising",
         [(Q, "        raise ReadOnlyError(\"Quantity is now read-only.\")", "        self._unknown_unit_caption = caption")], "C07.R2")
 control("C07", "removal loop edits the operand's own map",
         [(UD, "        category_to_unit_and_exp1 = quantity1.GetCategoryToUnitAndExpsCopy()", "        category_to_unit_and_exp1 = quantity1.GetCategoryToUnitAndExps()")], "C07.R3")
+# ------------------------------------------------------------------------------------------ C15
+control("C15", "GetValidUnits fix reverted (appends to the registry's list)",
+        [(A, "        valid_units = list(self.GetUnitDatabase().GetValidUnits(self.GetCategory()))", "        valid_units = self.GetUnitDatabase().GetValidUnits(self.GetCategory())")], "C15.R2")
+control("C15", "a getter writes a registry map",
+        [(UD, "        return sorted(self.quantity_types.keys())", "        self.unit_to_unit_info.pop(None, None)\n        return sorted(self.quantity_types.keys())")], "C15.R1")
+control("C15", "a query sorts the per-type list it got by reference",
+        [(UD, "        infos = self.GetInfos(category_info.quantity_type)\n\n        matched = []", "        infos = self.GetInfos(category_info.quantity_type)\n        infos.sort(key=lambda i: i.unit)\n\n        matched = []")], "C15.R2")
+control("C15", "Clear stops clearing the verdict memo",
+        [(UD, "        self.quantities_cache.clear()\n        self._category_unit_valid.clear()", "        self.quantities_cache.clear()")], "C15.R3")
+control("C15", "AddUnit stops clearing the verdict memo (fix reverted)",
+        [(UD, "        quantity_type_list.append(info)\n        # verdicts cached before this registration may no longer hold\n        self._category_unit_valid.clear()", "        quantity_type_list.append(info)")], "C15.R3")
+control("C15", "a validity check edits the CategoryInfo it looked up",
+        [(UD, "        category_info = self.GetCategoryInfo(category)\n        return category_info.default_value", "        category_info = self.GetCategoryInfo(category)\n        category_info.valid_units_set.add(category_info.default_unit)\n        return category_info.default_value")], "C15.R1")
 # ------------------------------------------------------------------------------------------ running
 def _apply(edits):
     overlay = {}
